@@ -474,8 +474,8 @@ func checkLockstep(r *Result, fn *ssa.Function) {
 }
 
 var c17Table = map[string]triage{
-	`(x/bridge/keeper.Keeper).EVMAddressFromSignatures # index:(x/bridge/keeper.Keeper).TryRecoverAddressWithBothIDs()#0[0]`: {"accepted", "TryRecoverAddressWithBothIDs returns, on its success path, one address per recovery id of the two-element literal {0,1}"},
-	`(x/bridge/keeper.Keeper).EVMAddressFromSignatures # index:(x/bridge/keeper.Keeper).TryRecoverAddressWithBothIDs()#0[1]`: {"accepted", "as above: two addresses on success"},
-	`(x/bridge/keeper.Keeper).GetValidatorDidSignCheckpoint # index:x/bridge/types.BridgeValsetSignatures.Signatures[loopvar]`:   {"linked", "the signature array of a checkpoint is sized by the previous validator set that is iterated here (C16 SLOT-CORRESPONDENCE)"},
-	`(x/bridge/keeper.Keeper).TryRecoverAddressWithBothIDs # index:param1[:64]`:                                                 {"linked", "the only ABCI++ caller chain (CheckInitialSignaturesFromLastCommit -> EVMAddressFromSignatures) is entered only with both signatures >= 64 bytes (VOTEEXT-FAIL length obligation above)"},
+	`(x/bridge/keeper.Keeper).EVMAddressFromSignatures # index:(x/bridge/keeper.Keeper).TryRecoverAddressWithBothIDs()#0[0]`:   {"accepted", "TryRecoverAddressWithBothIDs returns, on its success path, one address per recovery id of the two-element literal {0,1}"},
+	`(x/bridge/keeper.Keeper).EVMAddressFromSignatures # index:(x/bridge/keeper.Keeper).TryRecoverAddressWithBothIDs()#0[1]`:   {"accepted", "as above: two addresses on success"},
+	`(x/bridge/keeper.Keeper).GetValidatorDidSignCheckpoint # index:x/bridge/types.BridgeValsetSignatures.Signatures[loopvar]`: {"linked", "the signature array of a checkpoint is sized by the previous validator set that is iterated here (C16 SLOT-CORRESPONDENCE)"},
+	`(x/bridge/keeper.Keeper).TryRecoverAddressWithBothIDs # index:param1[:64]`:                                                {"linked", "the only ABCI++ caller chain (CheckInitialSignaturesFromLastCommit -> EVMAddressFromSignatures) is entered only with both signatures >= 64 bytes (VOTEEXT-FAIL length obligation above)"},
 }
